@@ -196,8 +196,9 @@ type Engine struct {
 	// MaxDepth of helper inlining by summary (DESIGN: one level).
 	MaxDepth int
 
-	frames map[*ssa.Function]*frame
-	eff    *effects
+	frames  map[*ssa.Function]*frame
+	eff     *effects
+	globals map[*ssa.Global]*globalBytes
 }
 
 func New(p *load.Program) *Engine {
@@ -694,6 +695,10 @@ func externalEffect(label string, cc *ssa.CallCommon) (extEffect, bool) {
 		return extEffect{dst: []int{0}, src: []int{-1}}, true
 	case recvStatic && strings.HasPrefix(label, "(encoding/binary.") && strings.HasPrefix(name, "PutUint"):
 		return extEffect{dst: []int{1}, src: []int{2}}, true
+	case label == "crypto/subtle.XORBytes":
+		return extEffect{dst: []int{0}, src: []int{1, 2}}, true
+	case label == "crypto/subtle.ConstantTimeCopy":
+		return extEffect{dst: []int{1}, src: []int{0, 2}}, true
 	case label == "crypto/rand.Read":
 		return extEffect{dst: []int{0}}, true
 	case label == "io.ReadFull" || label == "io.ReadAtLeast":
